@@ -24,6 +24,7 @@ void tsanshim_thread_join(int joiner, int child) __attribute__((weak));
 #include <cstdlib>
 #include <cstring>
 #include <dlfcn.h>
+#include <link.h>
 #include <fcntl.h>
 #include <linux/futex.h>
 #include <map>
@@ -340,6 +341,7 @@ struct Sched
   bool spurious = false;
   bool chargeSwitch = false;
   uint64_t yieldSpin = 0;
+  uint64_t sleepQuantumNs = 0; // sleeps are rounded up to a multiple (removes value nondeterminism such as random jitter)
   uint64_t deviationNs = 0; // virtual time advanced by *chosen* TIME options (runnable threads were slow)
 };
 Sched S;
@@ -353,6 +355,43 @@ struct RtGuard
 };
 
 inline Thr *cur() { return (S.inChild && tl_inrt == 0) ? tl_self : nullptr; }
+
+// Synchronisation operations issued from inside libcrypto / libssl (hundreds of thousands of provider-cache
+// rwlock operations per SSL_CTX_new) are leaf operations for every property here: they are executed without a
+// scheduling point as long as they do not have to block.  Ranges are taken once with dl_iterate_phdr.
+struct QuietRange
+{
+  uintptr_t lo, hi;
+};
+QuietRange g_quiet[8];
+int g_nquiet = -1;
+int quietPhdrCb(struct dl_phdr_info *info, size_t, void *)
+{
+  const char *n = info->dlpi_name ? info->dlpi_name : "";
+  if (!strstr(n, "libcrypto") && !strstr(n, "libssl"))
+    return 0;
+  for (int i = 0; i < info->dlpi_phnum && g_nquiet < 8; ++i)
+    if (info->dlpi_phdr[i].p_type == PT_LOAD && (info->dlpi_phdr[i].p_flags & PF_X))
+    {
+      g_quiet[g_nquiet].lo = info->dlpi_addr + info->dlpi_phdr[i].p_vaddr;
+      g_quiet[g_nquiet].hi = g_quiet[g_nquiet].lo + info->dlpi_phdr[i].p_memsz;
+      g_nquiet++;
+    }
+  return 0;
+}
+inline bool quietCaller(void *ra)
+{
+  if (g_nquiet < 0)
+  {
+    g_nquiet = 0;
+    dl_iterate_phdr(quietPhdrCb, nullptr);
+  }
+  uintptr_t a = (uintptr_t)ra;
+  for (int i = 0; i < g_nquiet; ++i)
+    if (a >= g_quiet[i].lo && a < g_quiet[i].hi)
+      return true;
+  return false;
+}
 
 [[noreturn]] void finishExec(int status, const char *clause, const std::string &sig, const std::string &detail)
 {
@@ -817,6 +856,12 @@ void condNotify(Thr *self, pthread_cond_t *c, bool all)
 
 int sleepUntil(Thr *self, uint64_t deadline)
 {
+  if (S.sleepQuantumNs && deadline > S.monoNs)
+  {
+    uint64_t d = deadline - S.monoNs;
+    d = (d + S.sleepQuantumNs - 1) / S.sleepQuantumNs * S.sleepQuantumNs;
+    deadline = S.monoNs + d;
+  }
   self->deadline = deadline;
   point(self, OP_SLEEP);
   self->deadline = 0;
@@ -1046,6 +1091,7 @@ uint64_t mc_wall_ns() { return wallNow(); }
 void mc_advance_wall(int64_t d) { S.wallOffsetNs += d; }
 uint64_t mc_step() { return S.globalOps; }
 uint64_t mc_deviation_ns() { return S.deviationNs; }
+void mc_set_sleep_quantum(uint64_t ns) { S.sleepQuantumNs = ns; }
 bool mc_active() { return S.inChild; }
 int mc_tid() { return mcint_tid(); }
 void mc_yield_point(const char *what) { mcint_point(what); }
@@ -1090,6 +1136,13 @@ extern "C"
     {
       if (o->owner != -1 && o->owner != self->id)
         internalError("ignored (leaf) mutex found held at a lock attempt: leaf assumption broken");
+      o->owner = self->id;
+      o->count++;
+      HB_ACQ(m);
+      return 0;
+    }
+    if (quietCaller(__builtin_return_address(0)) && mutexFreeFor(o, self))
+    {
       o->owner = self->id;
       o->count++;
       HB_ACQ(m);
@@ -1276,7 +1329,8 @@ extern "C"
     }
     if (o->onceState == 2)
       return 0;
-    point(self, OP_ONCE, o);
+    if (!(quietCaller(__builtin_return_address(0)) && o->onceState == 0))
+      point(self, OP_ONCE, o);
     if (o->onceState == 2)
       return 0;
     if (o->onceState == 1 && o->owner == self->id)
@@ -1304,7 +1358,8 @@ extern "C"
       RtGuard g;
       o = findObj(l);
     }
-    point(self, OP_RDLOCK, o);
+    if (!(quietCaller(__builtin_return_address(0)) && o->owner == -1))
+      point(self, OP_RDLOCK, o);
     o->readers++;
     HB_ACQ(l);
     return 0;
@@ -1322,7 +1377,8 @@ extern "C"
       RtGuard g;
       o = findObj(l);
     }
-    point(self, OP_WRLOCK, o);
+    if (!(quietCaller(__builtin_return_address(0)) && o->owner == -1 && o->readers == 0))
+      point(self, OP_WRLOCK, o);
     o->owner = self->id;
     HB_ACQ(l);
     return 0;
